@@ -56,12 +56,20 @@ def _read_lines(path):
         return fh.read().split("\n")[:-1]
 
 
+_BUILT = {}
+
+
 def execute(spec, outdir, tier, seed, replay=None, corpus=True):
     """run harness + driver; returns dict(script, impl, model, stats, harness_rc, harness_err, driver_rc)"""
     C.fresh_dir(outdir)
-    binp, err = C.build_harness(spec.harness, spec.tags)
-    if binp is None:
-        return {"build_error": err}
+    key = (spec.harness, spec.tags)
+    if key in _BUILT and os.path.exists(_BUILT[key]):
+        binp = _BUILT[key]  # built from the current tree earlier in this very run
+    else:
+        binp, err = C.build_harness(spec.harness, spec.tags)
+        if binp is None:
+            return {"build_error": err}
+        _BUILT[key] = binp
     args = [binp, "-seed", str(seed), "-tier", tier, "-out", outdir]
     if replay:
         args += ["-replay", replay]
